@@ -4,7 +4,7 @@ CHECK = dict(
     property='C08', level='exploration',
     families=[('mempool', 1.0)],
     budget=dict(quick=55, thorough=900), max_runs=dict(quick=200_000, thorough=5_000_000),
-    rule="motifs: a daemon that is merely slow (one getrawtransaction batch taking 20-150 s while nothing changes), more than 200 new transactions fetched in batches answered after different long delays; in 10 % of the runs the view is judged as real client sessions are told it at quiescence (family stale: unconfirmed part of get_history / get_mempool, unconfirmed balance, unconfirmed outputs of listunspent for every script, after blocks and reorgs); otherwise each evaluation = one simulated run of the real server (sessions idle) through sequences of daemon mempool states: arrivals of 1-30 transactions incl. chains of unconfirmed parents/children delivered across refreshes and 200-tx fetch batches in set order, evictions with descendants, confirmations by real blocks with partial inclusion, forks returning or dropping transactions. Monitor at every on_mempool hand-over: the refresh is synchronised when the daemon's (height, mempool) did not change since the refresh's getrawmempool and the index is at that height; then for every spendable-form pool script balance_delta, transaction_summaries (multiset of hash, fee, flag), unordered_UTXOs equal RefMempool and actual-spends <= potential_spends <= all prevouts of related txs; always: every script whose set of unconfirmed txids changed in the tracker's own view since the previous hand-over is in the touched set. non-trivial = a synchronised refresh with a non-empty mempool was compared",
+    rule="client history / unspent request storms on worker threads while the tracker looks confirmed outputs up; a child of a tip-block transaction looked up between the undoing of the tip and the indexing of its equal-height replacement; motifs: a daemon that is merely slow (one getrawtransaction batch taking 20-150 s while nothing changes), more than 200 new transactions fetched in batches answered after different long delays; in 10 % of the runs the view is judged as real client sessions are told it at quiescence (family stale: unconfirmed part of get_history / get_mempool, unconfirmed balance, unconfirmed outputs of listunspent for every script, after blocks and reorgs); otherwise each evaluation = one simulated run of the real server (sessions idle) through sequences of daemon mempool states: arrivals of 1-30 transactions incl. chains of unconfirmed parents/children delivered across refreshes and 200-tx fetch batches in set order, evictions with descendants, confirmations by real blocks with partial inclusion, forks returning or dropping transactions. Monitor at every on_mempool hand-over: the refresh is synchronised when the daemon's (height, mempool) did not change since the refresh's getrawmempool and the index is at that height; then for every spendable-form pool script balance_delta, transaction_summaries (multiset of hash, fee, flag), unordered_UTXOs equal RefMempool and actual-spends <= potential_spends <= all prevouts of related txs; always: every script whose set of unconfirmed txids changed in the tracker's own view since the previous hand-over is in the touched set. non-trivial = a synchronised refresh with a non-empty mempool was compared",
     assumptions=['model bitcoind / Electrum clients / TCP / LevelDB / file system are simulator models; '
                  'everything of ElectrumX and aiorpcX runs real', 'session cost throttling disabled '
                  '(COST_*_LIMIT=0) so that oracle sweeps are not throttled',
